@@ -24,7 +24,7 @@ import (
 
 type boardStats struct {
 	FollowerReads, ConcurrentReads, ContentsCompared                                                int
-	SameHandleHistories, SizeTargetsHit, HugeSends, OddLines                                                  int
+	SameHandleHistories, SizeTargetsHit, HugeSends, OddLines, MentionHistories                                                  int
 	Ops, Histories, Sends, Reads, MaxWriters, DistinctSizes, ProcessHistories, DefaultLockHistories int
 	OutcomeHist                                                                                     map[string]int
 	Monitors                                                                                        []string
@@ -833,6 +833,72 @@ func runBoardDiff(outDir string, seed int64, tier string) {
 					}
 				}()
 			}
+		}
+		// entries that MENTION the id of an ignored entry (a reply quoting it in its round id, event, sender or recipient), and an
+		// ignore list holding an empty string (a trailing comma on the command line): ignoring by id drops the entries whose id
+		// is on the list, no other
+		if h%5 == 2 {
+			func() {
+				path7 := filepath.Join(dir, "mention.txt")
+				lock7 := filepath.Join(dir, "mention.lock")
+				os.Remove(path7)
+				w, err := file_storage.NewFileStorage(path7, lock7)
+				if err != nil {
+					return
+				}
+				defer w.Close()
+				first := []storage.Message{{DkgRoundID: "mention", Event: fmt.Sprintf("m%d-first", h), Data: []byte("the entry that will be ignored")}}
+				if err := w.Send(first...); err != nil || first[0].ID == "" {
+					return
+				}
+				id := first[0].ID
+				rest := []storage.Message{
+					{DkgRoundID: "about-" + id, Event: "round-mentions", Data: []byte("d1")},
+					{DkgRoundID: "mention", Event: "reply-to-" + id, Data: []byte("d2")},
+					{DkgRoundID: "mention", Event: "sender-mentions", SenderAddr: id, Data: []byte("d3")},
+					{DkgRoundID: "mention", Event: "recipient-mentions", RecipientAddr: id, Data: []byte("d4")},
+					{DkgRoundID: "mention", Event: "plain", Data: []byte("d5")},
+				}
+				if err := w.Send(rest...); err != nil {
+					return
+				}
+				st.MentionHistories++
+				for _, list := range [][]string{{id}, {""}, {id, ""}} {
+					rd, err := file_storage.NewFileStorage(path7, lock7)
+					if err != nil {
+						return
+					}
+					if err := rd.IgnoreMessages(list, false); err != nil {
+						rd.Close()
+						continue
+					}
+					got, gerr := rd.GetMessages(0)
+					rd.Close()
+					if gerr != nil {
+						st.Monitors = append(st.Monitors, fmt.Sprintf("C16 read_suffix: mention history %d: GetMessages(0) ignoring ids %q fails: %v", h, list, gerr))
+						return
+					}
+					var want []string
+					for _, l := range list {
+						if l == id {
+							want = nil
+							break
+						}
+						want = []string{first[0].Event}
+					}
+					for _, m := range rest {
+						want = append(want, m.Event)
+					}
+					var have []string
+					for _, g := range got {
+						have = append(have, g.Event)
+					}
+					if strings.Join(have, ",") != strings.Join(want, ",") {
+						st.Monitors = append(st.Monitors, fmt.Sprintf("C16 read_suffix: mention history %d: GetMessages(0) ignoring the ids %q returned the entries [%s], expected [%s] (the entries after the first mention its id in their round id, event, sender, recipient)", h, list, strings.Join(have, ","), strings.Join(want, ",")))
+						return
+					}
+				}
+			}()
 		}
 		// a node's handle: the poller reads through the very handle the node's own requests send through (one FileStorage
 		// per node process: tick() calls GetMessages, StartDKG / ProposeSignMessages / executeOperation / SendMessage call Send),
